@@ -190,7 +190,7 @@ func workerMain(prop, tier string, worker int, baseSeed uint64, out string) int 
 
 // runOne dispatches on the kind of check (plain simulation, mode B enumeration, ...).
 func runOne(prof *Profile, seed uint64) *RunResult {
-	if prof.Special != nil {
+	if prof.Special != nil && (prof.SpecialEvery <= 1 || seed%uint64(prof.SpecialEvery) == 0) {
 		return prof.Special(prof, seed)
 	}
 	return runGenerate(prof, seed, false)
